@@ -425,7 +425,7 @@ def c10_units(th):
     q = [U(["Bq"], query=True, h=H(items=("7",))),
          U(["Bq"], query=True, h=H(items=("1", "'a;b'", "#13x,y"))),
          U(["GRP"], query=True, h=H(hdr="GRP:Y", items=("42",))),
-         U(["*OPC"], query=True, h=H(items=('"Unexpected ""x"""', "-2.5"))),   # a long segment before an embedded quote, short ones after it
+         U(["*OPC"], query=True, h=H(items=("-2.5", '"Unexpected ""x"""'))),   # a long segment before an embedded quote, short ones after it
          U(["GRP", "X"], query=True, h=H(hdr="LONGHEADERXX:X", items=("ON",))),   # two header() calls: a long first level, a short rest (fits where the first does not)
          U(["Bq"], query=True, h=H(items=("", "#12x;"))),       # an empty first datum (still separated by ','); payload ending in the unit separator byte
          U(["GRP"], query=True, h=H(items=("#11,", "#11\n"))),   # ... in the data separator / terminator byte
